@@ -191,6 +191,11 @@ func (c *Ctx) Var(name string, s *Sort) *Term {
 	name = strings.ReplaceAll(name, "|", "!")
 	return c.mk(&Term{Op: "var", S: s, Name: name})
 }
+
+// ResetFresh restarts the numbering of fresh names (each verification run is a separate set of
+// queries, and equal prefixes of two runs then produce identical terms).
+func (c *Ctx) ResetFresh() { c.fresh = 0 }
+
 func (c *Ctx) Fresh(prefix string, s *Sort) *Term {
 	c.fresh++
 	return c.Var(fmt.Sprintf("%s!%d", sanitize(prefix), c.fresh), s)
